@@ -79,6 +79,8 @@ class FnSpec:
     stmt_shapes: list = field(default_factory=list)  # [(matcher, handler)] recognised statement shapes
     prefix: str = ""                   # section arguments a caller outside the section must supply, e.g. "(c_add C)"
     start_after: str | None = None     # translate only the statements after the one whose source contains this marker
+    stop_before: str | None = None     # ... and before the one whose source contains this marker (a SEGMENT of the body)
+    segment_outputs: list = field(default_factory=list)  # [(local, type)] the value of a segment: these locals at its end
     skip_params: list = field(default_factory=list)  # Python parameters that are not passed (replaced by stmt shapes)
     extra_params: list = field(default_factory=list)  # [(coq name, type)] extra parameters introduced by shapes
     field_consts: dict = field(default_factory=dict)  # attr -> (Coq text, type): a field fixed by the class (see requires)
@@ -1229,10 +1231,31 @@ class FnTranslator:
             if len(idx) != 1:
                 self.bad(fdef, f"marker statement `{spec.start_after}` not found exactly once")
             body = body[idx[0] + 1:]
+        if spec.stop_before is not None:
+            idx = [i for i, st in enumerate(body) if spec.stop_before in ast.unparse(st)]
+            if len(idx) != 1:
+                self.bad(fdef, f"marker statement `{spec.stop_before}` not found exactly once")
+            body = body[:idx[0]]
+        if (spec.start_after is not None or spec.stop_before is not None) and body:
+            self.segment_span = (body[0].lineno, body[-1].end_lineno)
         ctx = Ctx(ret=ret, fall=lambda e2: ret(None, None, e2))
+        if spec.segment_outputs:
+            # a segment of a larger function: its value is the listed locals at its end; it must not return
+            def seg_end(e2):
+                for v, t in spec.segment_outputs:
+                    if v not in e2 or e2[v][1] != t:
+                        self.bad(fdef, f"the segment does not define `{v}` of type {t} on every path")
+                return Term(tuple_val([e2[v][0] for v, _ in spec.segment_outputs]), True)
+            for st in body:
+                for n in ast.walk(st):
+                    if isinstance(n, ast.Return):
+                        self.bad(n, "return inside a translated segment")
+            ctx = Ctx(ret=None, fall=seg_end)
         recursive = any(isinstance(n, ast.Call) and isinstance(n.func, ast.Attribute) and n.func.attr == fdef.name
                         and isinstance(n.func.value, ast.Name) and n.func.value.id == "self" for n in ast.walk(fdef))
         rtypes = ([spec.returns] if spec.returns is not None else []) + [dict(spec.fields)[w] for w in writes]
+        if spec.segment_outputs:
+            rtypes = [t for _, t in spec.segment_outputs]
         rty = " * ".join(par(self.coq_type(t)) for t in rtypes) if len(rtypes) > 1 else \
             (self.coq_type(rtypes[0]) if rtypes else "unit")
         if recursive:
@@ -1326,7 +1349,14 @@ def translate_client(client: Client, repo: Path):
                 continue
             table[spec.name] = sig
             meta["translated"] = True
-            out.append(f"(* {unit.file}:{fdef.lineno}-{fdef.end_lineno}  {qual}  sha256={meta['sha256'][:16]} *)")
+            span = getattr(tr, "segment_span", None)
+            if span is not None:       # a segment of the function: report (and hash) the translated lines only
+                seg = "\n".join(src.splitlines()[span[0] - 1:span[1]])
+                meta["lines"] = [span[0], span[1]]
+                meta["sha256"] = hashlib.sha256(seg.encode()).hexdigest()
+                meta["segment_of"] = qual
+            out.append(f"(* {unit.file}:{meta['lines'][0]}-{meta['lines'][1]}  {qual}"
+                       f"{' (segment)' if 'segment_of' in meta else ''}  sha256={meta['sha256'][:16]} *)")
             out.append(code + "\n")
         out.append(f"End {unit.section}.\n")
     return "\n".join(out), functions, failures
@@ -1391,6 +1421,16 @@ CLIENTS["C11"] = Client(
                  FnSpec(cls="SumSegmentTree", name="retrieve", coq="SumSegmentTree_retrieve", fields=C11_SUM_FIELDS,
                         field_consts=C11_SUM_CONSTS, returns="Z", fuel=True,
                         theorem="C11_translated_retrieve_is_model"),
+             ]),
+        # the power-of-two capacity of the trees: a SEGMENT of PrioritizedReplayBuffer.__init__ (between the statement
+        # that sets tree_ptr and the construction of the sum tree)
+        Unit(file="agilerl/components/replay_buffer.py", section="GenPerInit", context="", carrier=Carrier(T="unit"),
+             functions=[
+                 FnSpec(cls="PrioritizedReplayBuffer", name="__init__", coq="PrioritizedReplayBuffer_tree_capacity",
+                        skip_params=["alpha", "device", "dtype"], fuel=True,
+                        start_after="self.tree_ptr = 0", stop_before="self.sum_tree = SumSegmentTree(",
+                        segment_outputs=[("tree_capacity", "Z")],
+                        theorem="C11_translated_tree_capacity_is_model"),
              ]),
     ])
 
